@@ -116,6 +116,28 @@ pub fn pop_table(prop: &str, kinds: &[Kind], cover_methods: &[Method], tier: &st
         }
     });
     acc.merge(a);
+    let lm_prop = (prop == "C03" || prop == "C04") && kinds.iter().all(|k| *k != Kind::Std);
+    let std_prop = matches!(prop, "C01" | "C02" | "C05") && kinds == [Kind::Std];
+    if lm_prop || std_prop {
+        // fail-chain shapes: many small families with sparse suffix structure, default settings only
+        let mut fams = if lm_prop { families::leftmost_shape_families(level, util::seed()) } else { Vec::new() };
+        fams.extend(families::fail_chain_grid(if level >= 1 { 5 } else { 4 }));
+        let a = util::par_for(fams.len(), |fi, acc| {
+            let fam = &fams[fi];
+            for &kind in kinds {
+                let cfg = Cfg::new(Variant::Byte, kind, None, Entry::Builder);
+                let origin = e2::case_json(&cfg, &fam.pats, None);
+                util::set_case(prop, "table", origin.clone());
+                if let Some(b) = e2::build_or_violate(prop, "table", cfg, &fam.pats, None, acc) {
+                    if e1::check_table(prop, &b, &fam.pats, &origin, acc).is_some() && kind != Kind::Std {
+                        crate::lm::check_leftmost(prop, &b, &fam.pats, &origin, acc);
+                    }
+                }
+            }
+        });
+        acc.merge(a);
+        bounds.push(format!("E1{} on {} fail-chain shape families: {}the complete fail-chain grid (5 patterns, 8 letter roles) over {} letters; default settings", if lm_prop { "+E7" } else { "" }, fams.len(), if lm_prop { "sparse mutant families (4-20 patterns of up to 7 bytes over 4-9 letters) and " } else { "" }, if level >= 1 { 5 } else { 4 }));
+    }
     bounds.push(format!(
         "E1{} population level {} x kinds {:?} x nfb {:?}",
         if cover_methods.is_empty() { "" } else { "+E3" },
